@@ -132,6 +132,9 @@ func (obj *Mixture) ImportConfig(config ConfigDistribution, t ScalarType) error 
   if err := obj.Mixture.ImportConfig(config, t); err != nil {
     return err
   }
+  if len(config.Distributions) != obj.NComponents() {
+    return fmt.Errorf("invalid config file: %d distributions for %d weights", len(config.Distributions), obj.NComponents())
+  }
 
   distributions := make([]ScalarPdf, len(config.Distributions))
   for i := 0; i < len(config.Distributions); i++ {
